@@ -98,7 +98,7 @@ static void gdescribe(const gscen_t *s, char *buf, size_t cap)
 {
     char cn[64];
     snprintf(buf, cap, "op=%s role=%s ctx=%d gradient=[%s] stops=[%s] repeat=%s transform=%s request=(window origin %d,%d + %d,%d, %dx%d at dest %d,%d) PIXMAN_DISABLE=[%s]",
-             rc_op_name(s->op), ROLEN[s->role], s->ctx, GD[s->grad].name, GS[s->stops].name, REPN[s->rep], GXF[s->xf].name,
+             rc_op_name(s->op), s->role == 2 ? "component-alpha mask" : ROLEN[s->role], s->ctx, GD[s->grad].name, GS[s->stops].name, REPN[s->rep], GXF[s->xf].name,
              GD[s->grad].ox, GD[s->grad].oy, GRQ[s->rq].sx, GRQ[s->rq].sy, GRQ[s->rq].w, GRQ[s->rq].h, DX, DY, ph_cfg_name(s->cfg, cn, sizeof cn));
 }
 
@@ -162,6 +162,7 @@ static void run_gradient_scenario(const gscen_t *s)
     const gdef_t *g = &GD[s->grad]; const rq_t *rq = &GRQ[s->rq];
     const int w = rq->w, h = rq->h;
     pixman_repeat_t rep = REP[s->rep];
+    if (s->role == 2 && rc_is_hsl(s->op)) return;                /* HSL operators with a component-alpha mask are documented as unsupported */
 
     /* ---- the gradient and its pre-rendered copy */
     pixman_image_t *G = mk_gradient(g, &GS[s->stops]);
@@ -241,6 +242,7 @@ static void run_gradient_scenario(const gscen_t *s)
         pixman_image_t *src, *mask; int sx, sy, mx, my;
         if (s->role == 0) { src = p->im.img; sx = px; sy = py; mask = cmask.img; mx = rq->sx; my = rq->sy; }
         else { src = csrc.img; sx = rq->sx; sy = rq->sy; mask = p->im.img; mx = px; my = py; }
+        if (s->role == 2) pixman_image_set_component_alpha(mask, ph_truthy((uint64_t)k + (uint64_t)s->rq));      /* role 2: the same picture as a component-alpha mask: its colour channels are coverages, opaque alpha does not make it a no-op */
         memcpy(cdst.buf, dst0, dsz);
         last.valid = 0; cur_op = s->op; cur_src = src; cur_mask = mask;
         pixman_image_composite32(s->op, src, mask, cdst.img, sx, sy, mx, my, DX, DY, w, h);
@@ -293,7 +295,7 @@ static void run_gradient_scenario(const gscen_t *s)
         pres_t *q = &P[1]; int npx = 0;
         for (int y = 0; y < h && !vf_failed(); y++) for (int x = 0; x < w; x++) {
             int dx = DX + x, dy = DY + y;
-            uint32_t sp, mp = 0, dp; int mode = have_mask ? RC_MASK_UNIFIED : RC_MASK_NONE;
+            uint32_t sp, mp = 0, dp; int mode = s->role == 2 ? RC_MASK_CA : have_mask ? RC_MASK_UNIFIED : RC_MASK_NONE;
             if (s->role == 0) { sp = cpx[y * w + x]; if (have_mask) mp = model_at(&mmask, rq->sx + x, rq->sy + y); }
             else { sp = model_at(&msrc, rq->sx + x, rq->sy + y); mp = cpx[y * w + x]; }
             uint32_t raw = ph_get_pixel(dst0 + (size_t)dy * cdst.stride, 32, dx); dp = cdst.f.aw ? raw : (raw | 0xff000000u);
@@ -335,7 +337,7 @@ static void run_gradient_scenario(const gscen_t *s)
              (s->grad == 3 && rep == PIXMAN_REPEAT_PAD && dec_differ && s->op == PIXMAN_OP_OVER))) {
             gdescribe(s, desc, sizeof desc);
             char list[300]; size_t l = 0; list[0] = 0;
-            for (int k = 0; k < np && l + 80 < sizeof list; k++) l += snprintf(list + l, sizeof list - l, "%s'%s'->%s%s", l ? ", " : "", P[k].name, P[k].dec_valid ? rc_op_name(P[k].dec_op) : "(empty)", P[k].dec_mask_null && s->role == 1 ? " (mask elided)" : "");
+            for (int k = 0; k < np && l + 80 < sizeof list; k++) l += snprintf(list + l, sizeof list - l, "%s'%s'->%s%s", l ? ", " : "", P[k].name, P[k].dec_valid ? rc_op_name(P[k].dec_op) : "(empty)", P[k].dec_mask_null && s->role >= 1 ? " (mask elided)" : "");
             vf_sample("%s: gradient flagged IS_OPAQUE=%d, %d/%d request pixels opaque, %d transparent; dispatched as {%s}; all destinations equal", desc, g_is_opaque, n_opq, w * h, n_clear, list);
         }
     }
